@@ -2408,11 +2408,43 @@ func unitLoopTripsX(w *World, in ssa.Instruction, allowExit func(*ssa.BasicBlock
 	if !body[h.Succs[0]] || body[h.Succs[1]] {
 		return "", false
 	}
-	invariant := func(v ssa.Value) bool {
+	// storesTo: the loop stores into field #field of a struct of the type fa addresses
+	storesTo := func(fa *ssa.FieldAddr) bool {
+		for b := range body {
+			for _, in := range b.Instrs {
+				if st, ok := in.(*ssa.Store); ok {
+					if fb, ok := st.Addr.(*ssa.FieldAddr); ok && fb.Field == fa.Field && types.Identical(fb.X.Type(), fa.X.Type()) {
+						return true
+					}
+				}
+			}
+		}
+		return false
+	}
+	var invariant func(v ssa.Value) bool
+	invariant = func(v ssa.Value) bool {
 		switch x := v.(type) {
 		case *ssa.Const, *ssa.Parameter, *ssa.FreeVar:
 			return true
-		case ssa.Instruction:
+		case *ssa.Call:
+			// len / cap of something that does not change in the loop, re-evaluated in the header
+			if b, ok := x.Call.Value.(*ssa.Builtin); ok && (b.Name() == "len" || b.Name() == "cap") && len(x.Call.Args) == 1 {
+				if !body[x.Block()] && x.Block().Dominates(h) {
+					return true
+				}
+				return invariant(x.Call.Args[0])
+			}
+		case *ssa.UnOp:
+			// a field re-read in the header (`i < len(res.Items)`): invariant when its holder is and the loop
+			// does not store into that field
+			if x.Op == token.MUL && body[x.Block()] {
+				if fa, ok := x.X.(*ssa.FieldAddr); ok && invariant(fa.X) && !storesTo(fa) {
+					return true
+				}
+				return false
+			}
+		}
+		if x, ok := v.(ssa.Instruction); ok {
 			return !body[x.Block()] && x.Block().Dominates(h)
 		}
 		return false
